@@ -29,7 +29,7 @@ RULE = (
     "below it of which two are siblings or form a chain of depth >= 2; distinct by canonical scenario hash."
 )
 ASSUMPTIONS = ["only default ignore patterns", "mtime order is used as the witness of write order (tmpfs, ns timestamps)"]
-BUDGET = {"quick": (220, 4), "thorough": (8000, 16)}
+BUDGET = {"quick": (220, 4), "thorough": (48000, 16)}
 REQUIRED = ["siblings", "chain>=2", "prefix_siblings", "sf", "-n", "child_after_parent"]
 
 CFG = {
